@@ -41,12 +41,13 @@ ASSUMPTIONS = [
 SHIPPED = ['BensonGA', 'GRWAqueous2018', 'GRWSurface2018',
            'GuSolventGA2017Aq', 'GuSolventGA2017Vac', 'PPY', 'PtSurface2023',
            'SalciccioliGA2012', 'XieGA2022']
-FIX = ['FixA', 'FixB']
+FIX = ['FixA', 'FixB', 'FixC']
 # cheap libraries are drawn more often (loads dominate the cost)
 LIB_WEIGHTS = {'BensonGA': 2, 'PPY': 1, 'GRWAqueous2018': 2,
                'GRWSurface2018': 2, 'GuSolventGA2017Aq': 2,
                'GuSolventGA2017Vac': 2, 'PtSurface2023': 2,
-               'SalciccioliGA2012': 2, 'XieGA2022': 4, 'FixA': 6, 'FixB': 5}
+               'SalciccioliGA2012': 2, 'XieGA2022': 4, 'FixA': 6, 'FixB': 5,
+               'FixC': 2}
 GAS = ['C', 'CC', 'CCC', 'CCCC', 'CCCCCC', 'CC(C)C', 'CC(C)(C)C', 'C1CCCCC1',
        'C1CC1', 'C=C', 'CC=C', 'C=CC=C', 'C#C', 'CC#C', 'CO', 'CCO', 'CC=O',
        'CC(=O)C', 'CC(=O)O', 'COC', 'C1CO1', 'c1ccccc1', 'Cc1ccccc1',
@@ -187,7 +188,7 @@ def _ref_chain(lib, chain):
             libops.record(lib.Update, libops.build_lineage(other), overwrite)
         return libops.op_evaluate(est, chain[2])
     if kind == 'group_eval':
-        corr = lib[chain[1]].get('thermochem')
+        corr = libops.pset(lib[chain[1]], 'thermochem')
         if corr is None:
             return {'precondition-failed': 'no such group'}
         return libops.op_evaluate(corr, chain[2])
@@ -370,6 +371,19 @@ class History(object):
         return self
 
     # -- operations
+    def do_register(self, op, idx):
+        """The caller registers a second property-set type (the documented
+        extension point) between other operations.  Libraries loaded from
+        now on read data of that type; nothing else changes."""
+        out, new = libops.record(libops.register_demo_property_set)
+        self.registered = True
+        # the registries legitimately change: new baseline
+        self.proc0 = _proc_digest()
+        self.probe('property_set_registered_mid_history')
+        return ['register', out.get('exc')]
+
+    registered = False
+
     def do_setenv(self, op, idx):
         """The caller changes the data-directory override between
         operations (its environment is part of the history)."""
@@ -391,6 +405,8 @@ class History(object):
     def do_load(self, op, idx):
         sid = op['slot']
         lineage = {'base': [op['lib'], op.get('how', 'name')], 'merges': []}
+        if self.registered and op['lib'] == 'FixC':
+            lineage['registered'] = True
         faults = [dict(f) for f in op.get('faults') or []]
         _st['faults'] = faults
         out, lib = libops.record(libops.load_library, op['lib'],
@@ -459,6 +475,8 @@ class History(object):
             return ['construct-failed', out.get('exc')]
         lineage = {'base': list(src['lineage']['base']), 'merges': [],
                    'constructed': True}
+        if src['lineage'].get('registered'):
+            lineage['registered'] = True
         self.slots[op['slot']] = {'lib': lib, 'lineage': lineage,
                                   'last_mol': None, 'ndecomp': 0}
         self.probe('library_made_with_constructor')
@@ -568,7 +586,7 @@ class History(object):
         if not names:
             return None
         g = names[op['gi'] % len(names)]
-        corr = s['lib'][g].get('thermochem')
+        corr = libops.pset(s['lib'][g], 'thermochem')
         if corr is None:
             return None
         out = libops.op_evaluate(corr, op['v'])
@@ -586,7 +604,7 @@ class History(object):
         if not names:
             return None
         g = names[op['gi'] % len(names)]
-        if s['lib'][g].get('thermochem') is None:
+        if libops.pset(s['lib'][g], 'thermochem') is None:
             return None
         out = libops.op_format(s['lib'], g, op['units'])
         lin = _lin_copy(s['lineage'])
@@ -626,6 +644,8 @@ class History(object):
                   + [[_lin_copy(b['lineage']), op['overwrite']]]}
         if a['lineage'].get('constructed'):
             newlin['constructed'] = True
+        if a['lineage'].get('registered'):
+            newlin['registered'] = True
         a['lineage'] = newlin
         a.pop('baseline', None)
         if 'exc' in out:
@@ -658,6 +678,8 @@ def _lin_copy(lin):
            'merges': [[_lin_copy(o), ov] for o, ov in lin.get('merges', [])]}
     if lin.get('constructed'):
         out['constructed'] = True
+    if lin.get('registered'):
+        out['registered'] = True
     return out
 
 
@@ -789,6 +811,8 @@ def gen_spec(run_seed, tier='quick'):
          'format': rng.uniform(0, 0.6), 'read_pattern': rng.uniform(0, 0.5),
          'mapping_api': rng.uniform(0, 0.8),
          'construct': rng.uniform(0, 0.7)}
+    reg_ops = 'FixC' in libs or rng.random() < 0.1
+    did_register = False
     env_ops = rng.random() < 0.3
     if env_ops and rng.random() < 0.4:
         # the override is wrong from the start and corrected later
@@ -844,6 +868,11 @@ def gen_spec(run_seed, tier='quick'):
                 c['slot'] = rng.choice(sorted(slots))   # share a slot
                 continue
             gen_load(c, cid)
+            continue
+        if reg_ops and not did_register and len(ops) > 1 and \
+                rng.random() < 0.15:
+            ops.append({'op': 'register', 'client': cid})
+            did_register = True
             continue
         if env_ops and rng.random() < 0.06:
             ops.append({'op': 'setenv', 'client': cid,
@@ -1004,6 +1033,52 @@ def fixed_histories():
         ops.append({'op': 'mapping_api', 'client': 0, 'slot': 0})
         out.append({'property': PROP, 'run_seed': 'fixed-%s-%s' % (a, b),
                     'config': {'clients': 2, 'libs': [a, b],
+                               'fault_kinds': []}, 'ops': ops})
+    # a second property-set type registered between two loads of a library
+    # that carries data of that type
+    ops = [{'op': 'load', 'client': 0, 'slot': 0, 'lib': 'XieGA2022',
+            'how': 'name'},
+           {'op': 'load', 'client': 0, 'slot': 1, 'lib': 'FixC', 'how': 'name'},
+           {'op': 'decompose', 'client': 0, 'slot': 1, 'mol': 'CCC',
+            'out': 'd0'},
+           {'op': 'register', 'client': 1},
+           {'op': 'load', 'client': 1, 'slot': 2, 'lib': 'FixC', 'how': 'name'},
+           {'op': 'mapping_api', 'client': 1, 'slot': 2},
+           {'op': 'estimate', 'client': 1, 'slot': 2, 'from': 'd0',
+            'out': 'e0'},
+           {'op': 'evaluate', 'client': 1, 'est': 'e0',
+            'v': {'m': 'get_HoRT', 'T': 500.0}},
+           {'op': 'load', 'client': 0, 'slot': 3, 'lib': 'XieGA2022',
+            'how': 'path'},
+           {'op': 'merge', 'client': 0, 'slot': 1, 'other': 2,
+            'overwrite': False},
+           {'op': 'mapping_api', 'client': 0, 'slot': 1}]
+    out.append({'property': PROP, 'run_seed': 'fixed-register',
+                'config': {'clients': 2, 'libs': ['XieGA2022', 'FixC'],
+                           'fault_kinds': []}, 'ops': ops})
+    # boundary molecules: the empty structure (a legal SMILES, no atoms, no
+    # descriptors), a single atom, a molecule the scheme cannot decompose;
+    # other decompositions in between; everything evaluated with and without
+    # the elemental reference
+    for libname in ('BensonGA', 'FixA', 'GRWSurface2018'):
+        ops = [{'op': 'load', 'client': 0, 'slot': 0, 'lib': libname,
+                'how': 'name'}]
+        mols = ['', 'C', 'CCO', '[H][H]', 'not_a_smiles', '', 'O']
+        for i, m in enumerate(mols):
+            ops.append({'op': 'decompose', 'client': 0, 'slot': 0, 'mol': m,
+                        'out': 'b%d' % i})
+        for i in (0, 2, 1, 5, 6):
+            ops.append({'op': 'estimate', 'client': 0, 'slot': 0,
+                        'from': 'b%d' % i, 'out': 'eb%d' % i})
+            for v in ({'m': 'get_SoR', 'T': 298.15, 'S_el': True},
+                      {'m': 'get_G', 'T': 500.0, 'unit': 'kJ/mol',
+                       'S_el': True},
+                      {'m': 'get_HoRT', 'T': 298.15},
+                      {'m': 'get_SoR', 'T': 298.15}):
+                ops.append({'op': 'evaluate', 'client': 0, 'est': 'eb%d' % i,
+                            'v': dict(v)})
+        out.append({'property': PROP, 'run_seed': 'fixed-boundary-%s' % libname,
+                    'config': {'clients': 1, 'libs': [libname],
                                'fault_kinds': []}, 'ops': ops})
     # objects made with the public constructor (default arguments): a merge
     # into one of them must not show in its siblings, nor in one made later
